@@ -152,6 +152,30 @@ def unit_rules(ctx, rng, n):
         else:
             r.py_execute_rule(xr, pr, t, dt, rs)
         reals.append((xr, pr))
+        # the rule's meaning written out here, independently of the implementation's rule objects
+        A_, B_, S_, W_ = (M.get_species2index()[n_] for n_ in ("A", "B", "S", "W"))
+        q_, c_ = M.get_params2index()["q"], M.get_params2index()["c"]
+        ve = vol if usevol else 1.0
+        xe, pe = x.copy(), p.copy()
+        k_ = i % len(rules)
+        if k_ == 0:
+            xe[S_] = x[A_] + x[B_] + x[A_]
+        elif k_ == 1 and rs:
+            xe[S_] = p[q_] * x[A_] + ve * x[B_]
+        elif k_ == 2 and t == 1.5:
+            pe[q_] = x[A_] * x[B_] + t
+        elif k_ == 3 and t == 0.0:
+            xe[W_] = p[c_] * x[B_]
+        elif k_ == 4 and rs:
+            xe[W_] = x[W_] + (p[c_] * x[A_] - x[W_]) * dt
+        elif k_ == 5 and rs:
+            pe[q_] = p[q_] + ve * dt
+        if not (np.allclose(xe, xr, rtol=1e-12, atol=1e-12) and np.allclose(pe, pr, rtol=1e-12, atol=1e-12)):
+            ctx.violation("rule/execute/%s" % ("volume" if usevol else "plain"),
+                          "rule %d (%s) executed on x=%s p=%s volume=%s t=%s dt=%s rule_step=%s gives x=%s p=%s; its meaning gives x=%s p=%s"
+                          % (k_, spec["rules"][k_]["attrs"], x.tolist(), p.tolist(), ve, t, dt, rs, xr.tolist(), pr.tolist(), xe.tolist(), pe.tolist()),
+                          {"rule": spec["rules"][k_], "x": x.tolist(), "p": p.tolist(), "volume": ve, "t": t, "dt": dt, "rule_step": rs, "volume_path": usevol})
+            return
         jobs.append({"op": "rule", "num": "float", "rule": dump_rule(r), "x": [f2b(v) for v in x], "p": [f2b(v) for v in p],
                      "vol": f2b(vol if usevol else 1.0), "t": f2b(t), "dt": f2b(dt), "rs": rs})
     ans = driver_batch(jobs)
@@ -178,9 +202,21 @@ def lineage_rules(ctx, rng, n):
         rules = [r for r in rules if rng.chance(3, 4)] or rules[:1]
         case = {"lineage": True, "k": k, "grid": [float(t) for t in T], "c": c, "rules": [list(r) for r in rules]}
         ctx.begin_case(case)
-        M = LineageModel(species=["A", "B", "S", "R", "N", "Z", "W"], parameters={"k": k, "c": c, "d": 0.3},
+        athr, tdiv = float(rng.choice([4, 7])), float(T[max(2, len(T) // 2)])
+        M = LineageModel(species=["A", "B", "S", "R", "N", "Z", "W"], parameters={"k": k, "c": c, "d": 0.3, "athr": athr, "tdiv": tdiv},
                          reactions=[([], ["A"], "massaction", {"k": "k"}), (["A"], ["B"], "massaction", {"k": "d"})],
                          rules=[tuple(r) for r in rules], initial_condition_dict={"A": 2, "B": 0, "S": 0, "R": 0, "N": 0, "Z": -5, "W": 0})
+        # some cells end early: a death rule on a species (fires right after a reaction), or a division rule on a time
+        # threshold (fires at a grid tick); the rows they report, the last one included, still satisfy the repeated rules
+        ending = rng.choice(["none", "none", "death", "division"])
+        case["ending"] = ending
+        if ending == "death" and k > 0:
+            M.create_death_rule("species", {"specie": "A", "threshold": "athr", "comp": ">"})
+            M.py_initialize()
+        elif ending == "division":
+            from bioscrape.lineage import LineageVolumeSplitter
+            M.create_division_rule("time", {"threshold": "tdiv"}, LineageVolumeSplitter(M))
+            M.py_initialize()
         I = LineageCSimInterface(M)
         ctx.evaluated()
         if I.py_get_number_of_rules() != len(rules):
@@ -192,7 +228,7 @@ def lineage_rules(ctx, rng, n):
         r = LineageSSASimulator().py_SimulateSingleCell(T, Model=M, interface=I,
                                                         v=LineageVolumeCellState(v0=1.0, t0=0.0, state=M.get_species_array()))
         rows = np.array(r.py_get_result())
-        spec = {"params": {"k": k, "c": c, "d": 0.3}, "rules": [list(x) for x in rules], "lineage": True}
+        spec = {"params": {"k": k, "c": c, "d": 0.3, "athr": athr, "tdiv": tdiv}, "rules": [list(x) for x in rules], "lineage": True}
         checks = []
         for ru in rules:
             eq = ru[1].get("equation", "")
@@ -210,6 +246,11 @@ def lineage_rules(ctx, rng, n):
         from props import C19
         lspec = {"vol_rules": [], "div_rules": [], "death_rules": [], "vol_events": [], "div_events": [], "death_events": [],
                  "splitters": [], "vol0": 1.0}
+        if ending == "death" and k > 0:
+            lspec["death_rules"] = [("species", {"specie": "A", "threshold": "athr", "comp": ">"})]
+        elif ending == "division":
+            lspec["div_rules"] = [("time", {"threshold": "tdiv"})]
+            lspec["splitters"] = [{"modes": {}, "volume": "binomial", "noise": 0.5}]
         a = driver_batch([C19.lineage_job(lspec, M, [float(t) for t in T], seed, True)])[0]
         if a.get("status") == "ok":
             mrows = [[b2f(v) for v in row] for row in a["rows"]]
@@ -223,6 +264,14 @@ def lineage_rules(ctx, rng, n):
         if rows.shape[0] == len(T):
             rows_oracle(ctx, spec, checks, sl, rows, T, "lineage", seed)
             ctx.nontriv(("lineage", k, tuple(sorted(cc[0] for cc in checks)), len(T)))
+        elif rows.shape[0] >= 2:
+            # a cell that died or divided: its last row is the state at the event pushed to the next grid time, so the per-step
+            # counts are checked on the rows before it and the repeated rules on every row
+            rows_oracle(ctx, dict(spec, ending=ending), [cc for cc in checks if cc[0] == "repeat"], sl, rows, T[:rows.shape[0]], "lineage/ended", seed)
+            if rows.shape[0] >= 3:
+                rows_oracle(ctx, dict(spec, ending=ending), [cc for cc in checks if cc[0] in ("counter", "ode")], sl, rows[:-1], T[:rows.shape[0] - 1], "lineage/ended", seed)
+            ctx.nontriv(("lineage-ended", ending, k, tuple(sorted(cc[0] for cc in checks)), rows.shape[0]))
+            ctx.count("lineage_runs_ended_early")
         ctx.count("lineage_runs")
 
 
